@@ -43,7 +43,8 @@ Section TxProp.
       + bind_as Em as u0 Eu0. destruct (negb (Qcltb sv 0)); [discriminate|].
         bind_as Em as q Eq. bind_as Em as nn En. inversion Em; constructor.
       + destruct mm as [r|]; [|discriminate].
-        bind_as Em as c0 Ec0. bind_as Em as txs Et. inversion Em; subst. eapply gen_sfla_fields; eauto.
+        destruct (negb (Qcltb calc 0)); [discriminate|].
+        bind_as Em as txs Et. inversion Em; subst. eapply gen_sfla_fields; eauto.
     - destruct sp; [discriminate|]. inversion H; constructor.
   Qed.
 
@@ -593,7 +594,8 @@ Proof.
   assert (HsPKT : sd_sorted (P ++ K ++ T)) by (rewrite EL; exact HsL).
   assert (HnzKT : Forall spec_nz (K ++ T)).
   { apply Forall_app. split; [unfold K, Lle | unfold T]; repeat apply Forall_filter; exact HnzL. }
-  assert (HspK : Forall sell_pos K) by (unfold K, Lle; repeat apply Forall_filter; exact HspL).
+  assert (HspK : Forall sell_pos (K ++ T)).
+  { apply Forall_app. split; [unfold K, Lle | unfold T]; repeat apply Forall_filter; exact HspL. }
   rewrite <- Edr in Erg. rewrite Eds, <- app_assoc in Erg.
   destruct (roundtrip_ranges regof like hs' latest rg P K T dsP B1 st1 dsK bLe stLe dsT K'
               HsPKT EP EK ET Erg El1 El2 Hnd' Hhok' Htot Hobs' HgoodKT Hdated' HK1' Hk HnzKT HspK)
